@@ -81,13 +81,28 @@ def rmout(a): return [[frac(x) for x in r] for r in np.asarray(a)]
 def short(x): return str(x)[:400]
 
 # ----------------------------------------------------------------------------- generators
+# magnitudes: a whole image / column / visibility vector is scaled by an exact power of two 2^e (tiny: below every
+# plausible absolute threshold 1e-3 .. 1e-60; huge), entries inside it spread over at most 2^-20 so that no entry is
+# negligible against the l1 norm at the 1e-9 relative tolerance
+EXPS = [0, 0, 0, 0, 0, -7, -10, -14, -20, -24, -27, -30, -34, -40, -50, -60, -100, -200, 20, 40, 100]
+def rexp(rng, on=True): return rng.choice(EXPS) if on else 0
 def rval(rng, sparse=False):
     if sparse and rng.random() < 0.4: return Fraction(0)
     if rng.random() < 0.3: return Fraction(rng.randint(-20, 20), 4)
     return Fraction(rng.randint(-9, 9))
-def rvals(rng, n, sparse=False): return [rval(rng, sparse) for _ in range(n)]
-def rcv(rng, n): return [(rval(rng), rval(rng)) for _ in range(n)]
-def rnoise(rng, n): return [(rng.choice(NOISE), rng.choice(NOISE)) for _ in range(n)]
+def rvals(rng, n, sparse=False, e=0):
+    out = []
+    for _ in range(n):
+        sub = rng.choice([0, 0, 0, 0, -10, -20]) if e != 0 or rng.random() < 0.15 else 0
+        out.append(rval(rng, sparse) * Fraction(2) ** (e + sub))
+    return out
+def rmat(rng, n, P, mag=True):
+    """n x P signed matrix with zeros; every COLUMN has its own magnitude"""
+    cols = [rvals(rng, n, sparse=True, e=rexp(rng, mag)) for _ in range(P)]
+    return [[cols[j][i] for j in range(P)] for i in range(n)]
+def rcv(rng, n, e=0): return list(zip(rvals(rng, n, e=e), rvals(rng, n, e=e)))
+def rnoise(rng, n, e=0): return [(rng.choice(NOISE) * Fraction(2) ** e, rng.choice(NOISE) * Fraction(2) ** e) for _ in range(n)]
+NOISE_EXPS = [0, 0, 0, -20, 20, -50, 50]
 
 def rgrid_uv(rng, npix, K, lattice):
     """lattice 'quarter': coordinates and baselines multiples of 1/2 -> phases multiples of 1/4 turn (exact trig);
@@ -102,8 +117,8 @@ def rgrid_uv(rng, npix, K, lattice):
     if K >= 2 and rng.random() < 0.35: uv[rng.randrange(K)] = uv[rng.randrange(K)]               # repeated baseline
     return grid, uv
 
-def rmask(rng):
-    H, W = rng.randint(1, 5), rng.randint(1, 5)
+def rmask(rng, maxdim=5, maxpix=16):
+    H, W = rng.randint(1, maxdim), rng.randint(1, maxdim)
     style = rng.choice(["random", "random", "random", "full", "single", "ring", "empty"])
     if style == "full": m = [[False] * W for _ in range(H)]
     elif style == "empty": m = [[True] * W for _ in range(H)]
@@ -113,7 +128,7 @@ def rmask(rng):
     else:
         p = rng.choice([0.2, 0.5, 0.8])
         m = [[rng.random() > p for _ in range(W)] for _ in range(H)]
-    while sum(1 for r in m for b in r if not b) > 16:
+    while sum(1 for r in m for b in r if not b) > maxpix:
         m[rng.randrange(H)][rng.randrange(W)] = True
     return m
 
@@ -135,64 +150,233 @@ def ruv_class(rng, K):
     return uv
 
 def npix_of(m): return sum(1 for r in m for b in r if not b)
+LAYOUTS = ["c", "c", "f", "view"]
 
-def gen_inputs(tier, rng):
-    n = 400 if tier == "thorough" else 40
+def gen_util(tier, rng):
+    n = 400 if tier == "thorough" else 36
     util_ops = ["preload", "vispre", "vis", "image", "tmmpre", "tmm", "data", "recon"]
+    shapes = None
     for i in range(n):
         lattice = "quarter" if i % 2 else "sixteenth"
-        npix = rng.choice([0, 1, 2, 3, 5, 8, 12]); K = rng.choice([0, 1, 2, 3, 5, 8]); P = rng.choice([0, 1, 2, 3, 4])
+        # batches come in sibling PAIRS with identical shapes (npix, K, P) and different contents: a result remembered
+        # under a key made of shapes only shows in the second batch of the pair
+        if i % 2 == 0 or shapes is None:
+            shapes = (rng.choice([0, 1, 2, 3, 5, 8, 12]), rng.choice([0, 1, 2, 3, 5, 8]), rng.choice([0, 1, 2, 3, 4]))
+        npix, K, P = shapes
         grid, uv = rgrid_uv(rng, npix, K, lattice)
         base = {"grid": [Sv(g) for g in grid], "uv": [Sv(u) for u in uv], "lattice": lattice}
         for op in util_ops:
-            d = dict(base, op=op)
-            if op in ("vis",): d["img"] = Sv(rvals(rng, npix, sparse=(i % 3 == 0)))
+            d = dict(base, op=op, lay=rng.choice(LAYOUTS))
+            if op in ("vis",): d["img"] = Sv(rvals(rng, npix, sparse=(i % 3 == 0), e=rexp(rng)))
             elif op in ("vispre", "tmmpre"):
                 d.pop("grid"); d.pop("uv")
                 d["K"] = K
                 d["preR"] = Sm([[Fraction(rng.randint(-4, 4)) for _ in range(K)] for _ in range(npix)])
                 d["preI"] = Sm([[Fraction(rng.randint(-4, 4)) for _ in range(K)] for _ in range(npix)])
-                if op == "vispre": d["img"] = Sv(rvals(rng, npix, sparse=(i % 3 == 0)))
+                if op == "vispre": d["img"] = Sv(rvals(rng, npix, sparse=(i % 3 == 0), e=rexp(rng)))
                 else:
-                    d["P"] = P; d["M"] = Sm([rvals(rng, P, sparse=True) for _ in range(npix)])
+                    d["P"] = P; d["M"] = Sm(rmat(rng, npix, P))
             elif op == "image":
                 r = rng.random()
                 d["n"] = npix if r < 0.7 else (rng.randint(0, npix) if r < 0.85 else npix + rng.randint(1, 2))
-                d["vis"] = [Sv(v) for v in rcv(rng, K)]
+                d["vis"] = [Sv(v) for v in rcv(rng, K, e=rexp(rng))]
             elif op == "tmm":
-                d["P"] = P; d["M"] = Sm([rvals(rng, P, sparse=True) for _ in range(npix)])
+                d["P"] = P; d["M"] = Sm(rmat(rng, npix, P))
             elif op == "data":
-                d = {"op": op, "P": P, "TM": [[Sv(c) for c in rcv(rng, P)] for _ in range(K)],
-                     "vis": [Sv(v) for v in rcv(rng, K)], "noise": [Sv(v) for v in rnoise(rng, K)]}
+                e1, e2, e3 = rexp(rng), rexp(rng), rng.choice(NOISE_EXPS)
+                d = {"op": op, "P": P, "TM": [[Sv(c) for c in rcv(rng, P, e=e1)] for _ in range(K)],
+                     "vis": [Sv(v) for v in rcv(rng, K, e=e2)], "noise": [Sv(v) for v in rnoise(rng, K, e=e3)], "lay": d["lay"]}
             elif op == "recon":
-                d = {"op": op, "P": P, "TM": [[Sv(c) for c in rcv(rng, P)] for _ in range(K)], "s": Sv(rvals(rng, P))}
+                d = {"op": op, "P": P, "TM": [[Sv(c) for c in rcv(rng, P, e=rexp(rng))] for _ in range(K)],
+                     "s": Sv(rvals(rng, P, e=rexp(rng))), "lay": d["lay"]}
             yield d
-    m = 500 if tier == "thorough" else 50
+
+def gen_class(tier, rng):
+    m = 500 if tier == "thorough" else 32
     for i in range(m):
         g = rgeom(rng); npix = npix_of(g["m"])
         K = rng.choice([0, 1, 2, 3, 4, 6, 8]) if i % 7 == 0 else rng.choice([1, 2, 3, 4, 6, 8])
         uv = ruv_class(rng, K)
         base = {"geom": g, "uv": [Sv(u) for u in uv]}
         if i % 9 == 0: yield dict(base, op="tgrid")
-        yield dict(base, op="tvis", preload=bool(i % 2), native=bool((i // 2) % 2), img=Sv(rvals(rng, npix, sparse=(i % 3 == 0))))
-        if K > 0 or npix == 0 or True:
-            yield dict(base, op="timage", preload=bool(i % 2), vis=[Sv(v) for v in rcv(rng, K)], dot_img=Sv(rvals(rng, npix)))
+        yield dict(base, op="tvis", preload=bool(i % 2), native=bool((i // 2) % 2),
+                   img=Sv(rvals(rng, npix, sparse=(i % 3 == 0), e=rexp(rng))))
+        yield dict(base, op="timage", preload=bool(i % 2), vis=[Sv(v) for v in rcv(rng, K, e=rexp(rng))],
+                   dot_img=Sv(rvals(rng, npix, e=rexp(rng))))
         P = rng.choice([0, 1, 2, 3, 4]) if i % 5 == 0 else rng.choice([1, 2, 3])
         if npix > 0:
-            yield dict(base, op="ttmm", preload=bool((i // 2) % 2), P=P, M=Sm([rvals(rng, P, sparse=True) for _ in range(npix)]))
+            yield dict(base, op="ttmm", preload=bool((i // 2) % 2), P=P, M=Sm(rmat(rng, npix, P)), lay=rng.choice(LAYOUTS))
         if npix > 0 and K > 0 and (tier == "thorough" or i % 2 == 0):
             nobj = rng.choice([1, 1, 2, 3])
             objs = []
             for _ in range(nobj):
                 Pi = rng.choice([1, 1, 2, 3])
-                objs.append({"P": Pi, "M": Sm([rvals(rng, Pi, sparse=True) for _ in range(npix)]), "reg": rng.random() < 0.5})
+                objs.append({"P": Pi, "M": Sm(rmat(rng, npix, Pi, mag=(i % 4 == 0))), "reg": rng.random() < 0.5})
             value = rng.choice(["default", "1/8", "1", "2", "0"])
-            yield dict(base, op="inv", preload=bool(i % 2), objs=objs, data=[Sv(v) for v in rcv(rng, K)],
-                       noise=[Sv(v) for v in rnoise(rng, K)], value=value, factory=bool(i % 3 == 0))
+            en = rng.choice(NOISE_EXPS) if i % 4 == 0 else 0
+            yield dict(base, op="inv", preload=bool(i % 2), objs=objs, data=[Sv(v) for v in rcv(rng, K, e=rexp(rng, i % 4 == 0))],
+                       noise=[Sv(v) for v in rnoise(rng, K, e=en)], value=value, factory=bool(i % 3 == 0))
+
+# ---- histories: sibling transformers (differing in exactly ONE construction ingredient) alive in one interpreter, method
+# ---- calls interleaved, arguments reused / derived / edited in place
+def mask_cells(m): return [(y, x) for y, r in enumerate(m) for x, b in enumerate(r) if not b]
+def mask_from_cells(H, W, cells):
+    cs = set(cells); return [[(y, x) not in cs for x in range(W)] for y in range(H)]
+def mask_variant(rng, m, kind):
+    H, W = len(m), len(m[0]); cells = mask_cells(m); allc = [(y, x) for y in range(H) for x in range(W)]
+    if kind == "shift":                       # cyclic shift by one pixel: same pixel count
+        dy, dx = rng.choice([(0, 1), (1, 0), (0, -1), (-1, 0), (1, 1)])
+        return mask_from_cells(H, W, [((y + dy) % H, (x + dx) % W) for y, x in cells])
+    if kind == "perm": return mask_from_cells(H, W, rng.sample(allc, len(cells)))
+    if kind == "move1":
+        free = [c for c in allc if c not in cells]
+        if not free or not cells: return [r[:] for r in m]
+        out = cells[:]; out[rng.randrange(len(out))] = rng.choice(free); return mask_from_cells(H, W, out)
+    if kind == "flip": return [r[::-1] for r in m][::-1]        # point reflection: same count
+    if kind == "count":                      # one pixel more or fewer
+        free = [c for c in allc if c not in cells]
+        if free and (len(cells) <= 1 or rng.random() < 0.5): return mask_from_cells(H, W, cells + [rng.choice(free)])
+        if len(cells) >= 2: return mask_from_cells(H, W, cells[:-1])
+    return [r[:] for r in m]
+
+def gen_hist_one(rng):
+    H, W = rng.choice([(1, 3), (2, 2), (2, 3), (3, 2), (3, 3), (2, 4), (4, 3), (3, 4)])
+    n = rng.randint(1, min(H * W - 1, 5))
+    m0 = mask_from_cells(H, W, rng.sample([(y, x) for y in range(H) for x in range(W)], n))
+    sy = rng.choice(SCALES); sx = sy if rng.random() < 0.3 else rng.choice(SCALES)
+    oy, ox = (Fraction(0), Fraction(0)) if rng.random() < 0.5 else (Fraction(rng.randint(-6, 6), 4), Fraction(rng.randint(-6, 6), 4))
+    g0 = {"m": m0, "sy": S(sy), "sx": S(sx), "oy": S(oy), "ox": S(ox)}
+    K = rng.choice([1, 2, 2, 3, 4])
+    uv0 = [Sv(u) for u in ruv_class(rng, K)]
+    steps = []
+    masks, uvs, trs = [], [], []        # python-side object tables mirrored by run_hist
+    def add_mask(g, edit=None):
+        if edit is None:
+            masks.append(g); steps.append({"s": "mask", "geom": g}); return len(masks) - 1
+        masks[edit] = g; steps.append({"s": "mask", "geom": g, "edit": edit})
+        for t in trs:
+            if t["mask"] == edit: t["live"] = False
+        return edit
+    def add_uv(uv, edit=None):
+        integral = all(Fraction(c).denominator == 1 for u in uv for c in u)
+        if edit is None:
+            uvs.append(uv); steps.append({"s": "uv", "uv": uv, "dtype": "int" if integral and rng.random() < 0.4 else "float",
+                                          "lay": rng.choice(LAYOUTS)}); return len(uvs) - 1
+        uvs[edit] = uv; steps.append({"s": "uv", "uv": uv, "edit": edit})
+        for t in trs:
+            if t["uv"] == edit: t["live"] = False
+        return edit
+    def add_tr(mk, uk, preload):
+        trs.append({"mask": mk, "uv": uk, "live": True, "npix": npix_of(masks[mk]["m"]), "K": len(uvs[uk])})
+        steps.append({"s": "new", "mask": mk, "uv": uk, "preload": preload})
+    mk, uk = add_mask(g0), add_uv(uv0)
+    pre0 = rng.random() < 0.7
+    add_tr(mk, uk, pre0)
+    nsib = rng.choice([1, 2, 2, 3])
+    for _ in range(nsib):
+        src = rng.randrange(len(trs)); g = masks[trs[src]["mask"]]; uv = uvs[trs[src]["uv"]]
+        kind = rng.choice(["shift", "shift", "perm", "move1", "flip", "count", "uv_one", "uv_rev", "uv_neg", "scales", "origin",
+                           "same", "preload"])
+        pre = pre0 if rng.random() < 0.75 else (not pre0)
+        mk, uk = trs[src]["mask"], trs[src]["uv"]
+        if kind in ("shift", "perm", "move1", "flip", "count"):
+            g2 = dict(g, m=mask_variant(rng, g["m"], kind))
+            edit = mk if rng.random() < 0.3 else None          # in-place edit of the caller's Mask2D, then a new transformer
+            mk = add_mask(g2, edit)
+        elif kind == "scales":
+            g2 = dict(g, sy=g["sx"], sx=g["sy"]) if g["sy"] != g["sx"] else dict(g, sx=S(F(g["sx"]) * 2))
+            mk = add_mask(g2)
+        elif kind == "origin":
+            g2 = dict(g, oy=S(F(g["oy"]) + Fraction(rng.choice([-2, -1, 1, 2]), 4)), ox=S(F(g["ox"]) + Fraction(rng.choice([-1, 0, 1]), 4)))
+            mk = add_mask(g2)
+        elif kind in ("uv_one", "uv_rev", "uv_neg"):
+            uv2 = [list(u) for u in uv]
+            if kind == "uv_one":
+                k = rng.randrange(len(uv2)); uv2[k] = [S(F(uv2[k][0]) + rng.choice([-3, 1, 1000])), uv2[k][1]]
+            elif kind == "uv_rev": uv2 = uv2[::-1] if len(uv2) > 1 and uv2 != uv2[::-1] else [[u[1], u[0]] for u in uv2]
+            else: uv2 = [[S(-F(u[0])), S(-F(u[1]))] for u in uv2]
+            uk = add_uv(uv2, uk if rng.random() < 0.3 else None)
+        elif kind == "preload": pre = not pre0
+        elif kind == "same" and rng.random() < 0.5: mk = add_mask(dict(g))     # an equal but distinct Mask2D object
+        add_tr(mk, uk, pre)
+    # calls: every live transformer gets 2-3 calls, interleaved; arguments are often SHARED between siblings (same values
+    # through a different object) and re-used / edited in place / derived
+    live = [i for i, t in enumerate(trs) if t["live"]]
+    calls = []
+    for i in live:
+        kinds = rng.sample(["vis", "vis", "tmm", "tmm", "image"], rng.choice([2, 2, 3]))
+        calls += [(i, k) for k in kinds]
+    rng.shuffle(calls)
+    last = {}                 # (kind, shape) -> last argument values, to be re-used for a sibling
+    e_h = rexp(rng)
+    for i, k in calls:
+        t = trs[i]; npix, Kt = t["npix"], t["K"]
+        if k == "vis":
+            key = ("vis", npix); e = e_h if rng.random() < 0.6 else rexp(rng)
+            if key in last and rng.random() < 0.5: img = last[key]; how = rng.choice(["slim", "native", "same_obj", "scaled"])
+            else: img = Sv(rvals(rng, npix, sparse=rng.random() < 0.3, e=e)); how = rng.choice(["slim", "native", "store_native", "sum", "scaled", "edit"])
+            last[key] = img
+            st = {"s": "vis", "t": i, "img": img, "how": how, "own_mask": rng.random() < 0.5}
+            if how == "sum": st["part"] = Sv(rvals(rng, npix, e=e))
+            steps.append(st)
+        elif k == "tmm":
+            P = rng.choice([1, 2, 2, 3]); key = ("tmm", npix, P)
+            if key in last and rng.random() < 0.5: M = last[key]; how = rng.choice(["c", "f", "same_obj", "scaled"])
+            else: M = Sm(rmat(rng, npix, P)); how = rng.choice(["c", "f", "view", "edit", "scaled"])
+            if how == "scaled":           # c * M for an exact power of two c: T(c M) = c T(M) down to any magnitude
+                c = Fraction(2) ** rng.choice([-10, -27, -30, -40, -60, 20]); M = Sm([[F(x) * c for x in r] for r in M])
+            last[key] = M
+            steps.append({"s": "tmm", "t": i, "P": P, "M": M, "how": how})
+        else:
+            key = ("image", Kt)
+            if key in last and rng.random() < 0.5: vis = last[key]; how = rng.choice(["fresh", "same_obj"])
+            else: vis = [Sv(v) for v in rcv(rng, Kt, e=e_h if rng.random() < 0.6 else rexp(rng))]; how = rng.choice(["fresh", "sum", "edit"])
+            last[key] = vis
+            st = {"s": "image", "t": i, "vis": vis, "how": how}
+            if how == "sum": st["part"] = [Sv(v) for v in rcv(rng, Kt)]
+            steps.append(st)
+    return {"op": "hist", "steps": steps}
+
+def gen_hist(tier, rng):
+    for _ in range(300 if tier == "thorough" else 26):
+        yield gen_hist_one(rng)
+
+def gen_inputs(tier, rng):
+    yield from gen_util(tier, rng)
+    yield from gen_class(tier, rng)
+    yield from gen_hist(tier, rng)
 
 # ----------------------------------------------------------------------------- running
 def pairs(l): return [(Fraction(a), Fraction(b)) for a, b in l]
-def grid_arr(g): return np.array(flm(g), dtype=float).reshape((len(g), 2))
+def lay(a, mode):
+    """the same values through a different memory layout: C-contiguous, Fortran-ordered, or a strided view of a larger array"""
+    a = np.array(a)
+    if mode == "f" and a.ndim == 2: return np.asfortranarray(a)
+    if mode == "view":
+        if a.ndim == 2:
+            big = np.full((a.shape[0] * 2 + 1, a.shape[1] * 2 + 1), 7, dtype=a.dtype); v = big[1::2, 1::2]
+        else:
+            big = np.full((a.shape[0] * 2 + 1,), 7, dtype=a.dtype); v = big[1::2]
+        v[...] = a
+        return v
+    return a
+def grid_arr(g, mode="c"): return lay(np.array(flm(g), dtype=float).reshape((len(g), 2)), mode)
+def same(a, b):
+    a, b = np.asarray(a), np.asarray(b)
+    return a.shape == b.shape and a.dtype == b.dtype and bool(np.all((a == b) | ((a != a) & (b != b))))
+
+class Watch:
+    """(d) the caller's arguments must hold the same values after the call; (a) a second identical call must return the same"""
+    def __init__(self): self.items = []; self.ok = True; self.why = []
+    def arg(self, name, a): self.items.append((name, a, np.array(a, copy=True))); return a
+    def done(self):
+        for name, a, snap in self.items:
+            if not same(np.asarray(a), snap): self.ok = False; self.why.append("argument modified in place: " + name)
+        self.items = []
+    def twice(self, out, f):
+        out2 = f()
+        if not same(np.asarray(out), np.asarray(out2)): self.ok = False; self.why.append("second identical call returned a different result")
+        self.done()
 
 def mk_mask(aa, g):
     return aa.Mask2D(mask=np.array(g["m"], dtype=bool).reshape((len(g["m"]), len(g["m"][0]))),
@@ -202,62 +386,81 @@ def run_case(inp):
     aa = import_aa()
     from autoarray.operators import transformer_util as tu
     from autoarray.inversion.inversion.interferometer import inversion_interferometer_util as iu
-    op = inp["op"]
+    op = inp["op"]; L = inp.get("lay", "c")
+    w = Watch()
     if "grid" in inp:
         grid = pairs(inp["grid"]); uv = pairs(inp["uv"])
-        ga, ua = grid_arr(grid), grid_arr(uv)
+        ga, ua = w.arg("grid", grid_arr(grid, L)), w.arg("uv", grid_arr(uv, L))
         nontriv = len(grid) >= 2 and any(u != (0, 0) for u in uv)
     else:
         nontriv = True
     base = {"kind": op, "nontrivial": nontriv, "py_ok": None}
+    def fin(d):
+        if not w.ok: d["py_ok"] = False; d["detail"] = "; ".join(w.why)
+        return d
     if op == "preload":
         R = tu.preload_real_transforms(grid_radians=ga, uv_wavelengths=ua)
         I = tu.preload_imag_transforms(ga, ua)
+        w.twice(R, lambda: tu.preload_real_transforms(ga, ua))
         coq = f"(KPreload {ccv(grid)} {ccv(uv)} {cqm(rmout(R))} {cqm(rmout(I))})"
-        return dict(base, coq=coq, out=short([R.tolist(), I.tolist()]))
+        return fin(dict(base, coq=coq, out=short([R.tolist(), I.tolist()])))
     if op == "vispre":
         K = inp["K"]; img = Fv(inp["img"]); preR = Fm(inp["preR"]); preI = Fm(inp["preI"])
-        out = tu.visibilities_via_preload_jit_from(np.array(fl(img)), arr2(preR, K), arr2(preI, K))
+        a = (w.arg("image", lay(np.array(fl(img)), L)), w.arg("preR", lay(arr2(preR, K), L)), w.arg("preI", lay(arr2(preI, K), L)))
+        out = tu.visibilities_via_preload_jit_from(*a)
+        w.twice(out, lambda: tu.visibilities_via_preload_jit_from(*a))
         coq = f"(KVisPre {cnat(K)} {cqv(img)} {cqm(preR)} {cqm(preI)} {ccv(cvout(out))})"
-        return dict(base, coq=coq, out=short(out.tolist()), nontrivial=len(img) >= 2 and K >= 1)
+        return fin(dict(base, coq=coq, out=short(out.tolist()), nontrivial=len(img) >= 2 and K >= 1))
     if op == "vis":
-        img = Fv(inp["img"])
-        out = tu.visibilities_jit(np.array(fl(img)), ga, ua)
-        return dict(base, coq=f"(KVis {cqv(img)} {ccv(grid)} {ccv(uv)} {ccv(cvout(out))})", out=short(out.tolist()))
+        img = Fv(inp["img"]); ia = w.arg("image", lay(np.array(fl(img)), L))
+        out = tu.visibilities_jit(ia, ga, ua)
+        w.twice(out, lambda: tu.visibilities_jit(ia, ga, ua))
+        return fin(dict(base, coq=f"(KVis {cqv(img)} {ccv(grid)} {ccv(uv)} {ccv(cvout(out))})", out=short(out.tolist())))
     if op == "image":
         vis = pairs(inp["vis"]); n = inp["n"]
-        va = np.array(flm(vis), dtype=float).reshape((len(vis), 2))
+        va = w.arg("visibilities", lay(np.array(flm(vis), dtype=float).reshape((len(vis), 2)), L))
         try:
             o = tu.image_via_jit_from(n, ga, ua, va); out = ("ok", rvout(o))
+            w.twice(o, lambda: tu.image_via_jit_from(n, ga, ua, va))
         except Exception as e:
             out = ("raise", exn_name(e))
-        return dict(base, coq=f"(KImage {cnat(n)} {ccv(grid)} {ccv(uv)} {ccv(vis)} {cres(out, cqv)})", out=short(out))
+        return fin(dict(base, coq=f"(KImage {cnat(n)} {ccv(grid)} {ccv(uv)} {ccv(vis)} {cres(out, cqv)})", out=short(out)))
     if op == "tmmpre":
         K, P = inp["K"], inp["P"]; M = Fm(inp["M"]); preR = Fm(inp["preR"]); preI = Fm(inp["preI"])
-        out = tu.transformed_mapping_matrix_via_preload_jit_from(arr2(M, P), arr2(preR, K), arr2(preI, K))
+        a = (w.arg("mapping_matrix", lay(arr2(M, P), L)), w.arg("preR", arr2(preR, K)), w.arg("preI", arr2(preI, K)))
+        out = tu.transformed_mapping_matrix_via_preload_jit_from(*a)
+        w.twice(out, lambda: tu.transformed_mapping_matrix_via_preload_jit_from(*a))
         coq = f"(KTmmPre {cnat(K)} {cnat(P)} {cqm(M)} {cqm(preR)} {cqm(preI)} {ccm(cmout(out))})"
-        return dict(base, coq=coq, out=short(out.tolist()), nontrivial=len(M) >= 2 and K >= 1 and P >= 1)
+        return fin(dict(base, coq=coq, out=short(out.tolist()), nontrivial=len(M) >= 2 and K >= 1 and P >= 1))
     if op == "tmm":
-        P = inp["P"]; M = Fm(inp["M"])
-        out = tu.transformed_mapping_matrix_jit(arr2(M, P), ga, ua)
-        return dict(base, coq=f"(KTmm {cnat(P)} {cqm(M)} {ccv(grid)} {ccv(uv)} {ccm(cmout(out))})", out=short(out.tolist()))
+        P = inp["P"]; M = Fm(inp["M"]); ma = w.arg("mapping_matrix", lay(arr2(M, P), L))
+        out = tu.transformed_mapping_matrix_jit(ma, ga, ua)
+        w.twice(out, lambda: tu.transformed_mapping_matrix_jit(ma, ga, ua))
+        return fin(dict(base, coq=f"(KTmm {cnat(P)} {cqm(M)} {ccv(grid)} {ccv(uv)} {ccm(cmout(out))})", out=short(out.tolist())))
     if op == "data":
         P = inp["P"]; TM = [pairs(r) for r in inp["TM"]]; vis = pairs(inp["vis"]); noise = pairs(inp["noise"])
-        tm = np.array([[complex(float(a), float(b)) for a, b in r] for r in TM], dtype=complex).reshape((len(TM), P))
-        out = iu.data_vector_via_transformed_mapping_matrix_from(tm, cplx(vis), cplx(noise))
-        return dict(base, coq=f"(KData {cnat(P)} {ccm(TM)} {ccv(vis)} {ccv(noise)} {cqv(rvout(out))})", out=short(out.tolist()),
-                    nontrivial=P >= 1 and len(TM) >= 2)
+        tm = w.arg("transformed_mapping_matrix", lay(np.array([[complex(float(a), float(b)) for a, b in r] for r in TM], dtype=complex).reshape((len(TM), P)), L))
+        va, na = w.arg("visibilities", cplx(vis)), w.arg("noise_map", cplx(noise))
+        out = iu.data_vector_via_transformed_mapping_matrix_from(tm, va, na)
+        w.twice(out, lambda: iu.data_vector_via_transformed_mapping_matrix_from(tm, va, na))
+        return fin(dict(base, coq=f"(KData {cnat(P)} {ccm(TM)} {ccv(vis)} {ccv(noise)} {cqv(rvout(out))})", out=short(out.tolist()),
+                        nontrivial=P >= 1 and len(TM) >= 2))
     if op == "recon":
         P = inp["P"]; TM = [pairs(r) for r in inp["TM"]]; s = Fv(inp["s"])
-        tm = np.array([[complex(float(a), float(b)) for a, b in r] for r in TM], dtype=complex).reshape((len(TM), P))
-        out = iu.mapped_reconstructed_visibilities_from(tm, np.array(fl(s)))
-        return dict(base, coq=f"(KRecon {ccm(TM)} {cqv(s)} {ccv(cvout(out))})", out=short(out.tolist()),
-                    nontrivial=P >= 1 and len(TM) >= 2)
+        tm = w.arg("transformed_mapping_matrix", lay(np.array([[complex(float(a), float(b)) for a, b in r] for r in TM], dtype=complex).reshape((len(TM), P)), L))
+        sa = w.arg("reconstruction", np.array(fl(s)))
+        out = iu.mapped_reconstructed_visibilities_from(tm, sa)
+        w.twice(out, lambda: iu.mapped_reconstructed_visibilities_from(tm, sa))
+        return fin(dict(base, coq=f"(KRecon {ccm(TM)} {cqv(s)} {ccv(cvout(out))})", out=short(out.tolist()),
+                        nontrivial=P >= 1 and len(TM) >= 2))
+    if op == "hist": return run_hist(aa, inp, base)
     return run_class(aa, inp, base)
 
-def close(a, b, t=1e-9):
+def close(a, b, scale, t=1e-12):
+    """|a - b| <= t * scale element-wise (scale: the l1 norm of the linear argument, scalar or per column)"""
     a, b = np.asarray(a), np.asarray(b)
-    return a.shape == b.shape and bool(np.all(np.abs(a - b) <= t * np.maximum(1.0, np.abs(b))))
+    return a.shape == b.shape and bool(np.all(np.abs(a - b) <= t * np.asarray(scale, dtype=float)))
+def l1f(v): return float(sum(abs(Fraction(x)) for x in v))
 
 def run_class(aa, inp, base):
     op = inp["op"]; g = inp["geom"]; uv = pairs(inp["uv"])
@@ -266,70 +469,204 @@ def run_class(aa, inp, base):
     ua = np.array(flm(uv), dtype=float).reshape((len(uv), 2))
     base["nontrivial"] = npix >= 2 and any(u != (0, 0) for u in uv)
     G = cgeom(g); U = ccv(uv); Pi = cq(PI)
+    w = Watch(); w.arg("uv_wavelengths", ua); w.arg("real_space_mask", mask)
     def tr(preload): return aa.TransformerDFT(uv_wavelengths=ua, real_space_mask=mask, preload_transform=preload)
+    def fin(d):
+        w.done()
+        if not w.ok: d["py_ok"] = False; d["detail"] = "; ".join(w.why)
+        return d
     if op == "tgrid":
         t = tr(False)
         out = [(frac(y), frac(x)) for y, x in np.array(t.grid).reshape((npix, 2))]
         ok = tuple(t.shape) == (len(uv), npix) and t.total_image_pixels == npix and t.total_visibilities == len(uv)
-        return dict(base, coq=f"(KTGrid {Pi} {G} {ccv(out)})", out=short(out), py_ok=ok)
+        return fin(dict(base, coq=f"(KTGrid {Pi} {G} {ccv(out)})", out=short(out), py_ok=ok))
     if op == "tvis":
-        img = Fv(inp["img"])
+        img = Fv(inp["img"]); sc = l1f(img)
         def image(native):
             im = aa.Array2D(values=fl(img), mask=mask)
             return im.native if native else im
-        out = np.array(tr(inp["preload"]).visibilities_from(image=image(inp["native"])))
+        t = tr(inp["preload"]); im0 = w.arg("image", image(inp["native"]))
+        out = np.array(t.visibilities_from(image=im0))
+        w.twice(out, lambda: np.array(t.visibilities_from(image=im0)))       # the same object evaluated twice
         # relations: preload on = off; native storage = slim storage
         others = [np.array(tr(p).visibilities_from(image=image(nat))) for p in (True, False) for nat in (True, False)]
-        ok = all(close(o, out, 1e-12) for o in others)
-        return dict(base, coq=f"(KTVis {Pi} {G} {U} {cbool(inp['preload'])} {cqv(img)} {ccv(cvout(out))})", out=short(out.tolist()),
-                    py_ok=ok, detail=None if ok else short([o.tolist() for o in others]))
+        ok = all(close(o, out, sc) for o in others)
+        return fin(dict(base, coq=f"(KTVis {Pi} {G} {U} {cbool(inp['preload'])} {cqv(img)} {ccv(cvout(out))})", out=short(out.tolist()),
+                        py_ok=ok, detail=None if ok else short([o.tolist() for o in others])))
     if op == "timage":
         vis = pairs(inp["vis"])
         t = tr(inp["preload"])
-        V = aa.Visibilities(visibilities=cplx(vis))
+        V = w.arg("visibilities", aa.Visibilities(visibilities=cplx(vis)))
         res = t.image_from(visibilities=V)
         out = np.array(res.slim)
+        w.twice(out, lambda: np.array(t.image_from(visibilities=V).slim))
         ok = res.shape_native == mask.shape_native and bool(np.all(np.array(res.native)[np.array(mask)] == 0.0))
         # adjoint (dot) test: Re <V, A I> = <image_from(V), I>
         I = Fv(inp["dot_img"])
         AI = np.array(t.visibilities_from(image=aa.Array2D(values=fl(I), mask=mask)))
         lhs = float(np.sum(np.real(np.conj(cplx(vis)) * AI))); rhs = float(np.dot(out, np.array(fl(I)))) if npix else 0.0
-        ok = ok and abs(lhs - rhs) <= 1e-9 * max(1.0, abs(lhs))
-        return dict(base, coq=f"(KTImage {Pi} {G} {U} {ccv(vis)} {cqv(rvout(out))})", out=short(out.tolist()), py_ok=ok,
-                    detail=None if ok else short([lhs, rhs]))
+        ok = ok and abs(lhs - rhs) <= 1e-9 * l1f([c for v in vis for c in v]) * l1f(I)
+        return fin(dict(base, coq=f"(KTImage {Pi} {G} {U} {ccv(vis)} {cqv(rvout(out))})", out=short(out.tolist()), py_ok=ok,
+                        detail=None if ok else short([lhs, rhs])))
     if op == "ttmm":
-        P = inp["P"]; M = Fm(inp["M"])
+        P = inp["P"]; M = Fm(inp["M"]); Ma = w.arg("mapping_matrix", lay(arr2(M, P), inp.get("lay", "c")))
+        cs = [l1f([r[j] for r in M]) for j in range(P)]
         t = tr(inp["preload"])
-        out = t.transform_mapping_matrix(mapping_matrix=arr2(M, P))
+        out = t.transform_mapping_matrix(mapping_matrix=Ma)
+        w.twice(out, lambda: t.transform_mapping_matrix(mapping_matrix=Ma))
         other = tr(not inp["preload"]).transform_mapping_matrix(mapping_matrix=arr2(M, P))
-        ok = close(other, out, 1e-12) and out.shape == (len(uv), P)
+        ok = out.shape == (len(uv), P) and close(other, out, np.array(cs).reshape((1, P)))
         for j in range(P):     # column-wise: the operator applied to column j
             col = np.array(t.visibilities_from(image=aa.Array2D(values=arr2(M, P)[:, j], mask=mask)))
-            ok = ok and close(out[:, j], col, 1e-12)
-        return dict(base, coq=f"(KTTmm {Pi} {G} {U} {cbool(inp['preload'])} {cnat(P)} {cqm(M)} {ccm(cmout(out))})",
-                    out=short(out.tolist()), py_ok=ok)
+            ok = ok and close(out[:, j], col, cs[j])
+        return fin(dict(base, coq=f"(KTTmm {Pi} {G} {U} {cbool(inp['preload'])} {cnat(P)} {cqm(M)} {ccm(cmout(out))})",
+                        out=short(out.tolist()), py_ok=ok))
     if op == "inv":
         data = pairs(inp["data"]); noise = pairs(inp["noise"])
         t = tr(inp["preload"])
-        ds = aa.DatasetInterface(data=aa.Visibilities(visibilities=cplx(data)),
-                                 noise_map=aa.VisibilitiesNoiseMap(visibilities=cplx(noise)), transformer=t)
+        ds = aa.DatasetInterface(data=w.arg("data", aa.Visibilities(visibilities=cplx(data))),
+                                 noise_map=w.arg("noise_map", aa.VisibilitiesNoiseMap(visibilities=cplx(noise))), transformer=t)
         objs = []
-        for o in inp["objs"]:
-            objs.append(aa.m.MockLinearObj(parameters=o["P"], mapping_matrix=arr2(Fm(o["M"]), o["P"]),
+        for k, o in enumerate(inp["objs"]):
+            Mk = w.arg(f"mapping_matrix[{k}]", arr2(Fm(o["M"]), o["P"]))
+            objs.append(aa.m.MockLinearObj(parameters=o["P"], mapping_matrix=Mk,
                                            regularization=aa.reg.Constant(coefficient=1.0) if o["reg"] else None))
         if inp["value"] == "default":
             settings = aa.SettingsInversion(use_w_tilde=False)
         else:
             settings = aa.SettingsInversion(use_w_tilde=False, no_regularization_add_to_curvature_diag_value=float(F(inp["value"])))
         value = frac(settings.no_regularization_add_to_curvature_diag_value)
-        if inp["factory"]:
-            inv = aa.Inversion(dataset=ds, linear_obj_list=objs, settings=settings)
-        else:
-            inv = aa.InversionInterferometerMapping(dataset=ds, linear_obj_list=objs, settings=settings)
+        def make():
+            if inp["factory"]: return aa.Inversion(dataset=ds, linear_obj_list=objs, settings=settings)
+            return aa.InversionInterferometerMapping(dataset=ds, linear_obj_list=objs, settings=settings)
+        inv = make()
         ok = type(inv).__name__ == "InversionInterferometerMapping"
-        T = np.array(inv.operated_mapping_matrix); D = np.array(inv.data_vector); Fm_ = np.array(inv.curvature_matrix)
+        # order of first access varies: F before D before T, or T, D, F
+        if len(data) % 2:
+            Fm_ = np.array(inv.curvature_matrix); D = np.array(inv.data_vector); T = np.array(inv.operated_mapping_matrix)
+        else:
+            T = np.array(inv.operated_mapping_matrix); D = np.array(inv.data_vector); Fm_ = np.array(inv.curvature_matrix)
+        # read again through the same object, and through a second inversion over the same transformer / objects
+        inv2 = make()
+        for a, b in ((T, inv.operated_mapping_matrix), (D, inv.data_vector), (Fm_, inv.curvature_matrix),
+                     (D, inv2.data_vector), (Fm_, inv2.curvature_matrix), (T, inv2.operated_mapping_matrix)):
+            if not same(a, np.array(b)): ok = False
         cobjs = clist([ctup([cnat(o["P"]), cqm(Fm(o["M"])), cbool(o["reg"])]) for o in inp["objs"]])
         coq = (f"(KInv {Pi} {G} {U} {cbool(inp['preload'])} {cobjs} {ccv(data)} {ccv(noise)} {cq(value)} "
                f"{ccm(cmout(T))} {cqv(rvout(D))} {cqm(rmout(Fm_))})")
-        return dict(base, coq=coq, out=short([D.tolist(), Fm_.tolist()]), py_ok=ok)
+        return fin(dict(base, coq=coq, out=short([D.tolist(), Fm_.tolist()]), py_ok=ok))
     raise ValueError(op)
+
+def run_hist(aa, inp, base):
+    """interprets the recorded steps; mirrors gen_hist_one's object tables"""
+    Pi = cq(PI)
+    masks, mgeom, uvarrs, uvvals, trs = [], [], [], [], []
+    prev = {}                     # argument objects of earlier calls: kind -> (object, values, geometry or shape)
+    csteps, couts, outs = [], [], []
+    w = Watch(); ok = True; why = []
+    def note(cond, msg):
+        nonlocal ok
+        if not cond: ok = False; why.append(msg)
+    ncalls = 0
+    for st in inp["steps"]:
+        s = st["s"]
+        if s == "mask":
+            g = st["geom"]
+            if st.get("edit") is None:
+                masks.append(mk_mask(aa, g)); mgeom.append(g)
+            else:                                        # the caller edits ITS Mask2D in place (same shape, scales, origin)
+                k = st["edit"]; old = mgeom[k]["m"]
+                for y, row in enumerate(g["m"]):
+                    for x, b in enumerate(row):
+                        if old[y][x] != b: masks[k][y, x] = b
+                mgeom[k] = g
+                for t in trs:
+                    if t["mask"] == k: t["live"] = False
+        elif s == "uv":
+            vals = pairs(st["uv"])
+            if st.get("edit") is None:
+                a = np.array(flm(vals), dtype=float).reshape((len(vals), 2))
+                if st.get("dtype") == "int": a = a.astype(int)
+                uvarrs.append(lay(a, st.get("lay", "c"))); uvvals.append(vals)
+            else:
+                k = st["edit"]; uvarrs[k][...] = np.array(flm(vals)).astype(uvarrs[k].dtype); uvvals[k] = vals
+                for t in trs:
+                    if t["uv"] == k: t["live"] = False
+        elif s == "new":
+            mk, uk = st["mask"], st["uv"]
+            w.arg("uv_wavelengths", uvarrs[uk]); w.arg("real_space_mask", masks[mk])
+            t = aa.TransformerDFT(uv_wavelengths=uvarrs[uk], real_space_mask=masks[mk], preload_transform=st["preload"])
+            w.done()
+            g = mgeom[mk]; npix = npix_of(g["m"])
+            trs.append({"t": t, "mask": mk, "uv": uk, "live": True, "geom": g, "uvv": uvvals[uk], "npix": npix})
+            grid = [(frac(y), frac(x)) for y, x in np.array(t.grid).reshape((npix, 2))]
+            note(tuple(t.shape) == (len(uvvals[uk]), npix), "TransformerDFT.shape")
+            csteps.append(f"(@HNew QOpsT {cgeom(g)} {ccv(uvvals[uk])} {cbool(st['preload'])})")
+            couts.append(f"(@ONew QOpsT {ccv(grid)})"); outs.append("new")
+        else:
+            T = trs[st["t"]]; t = T["t"]; g = T["geom"]; ncalls += 1
+            if not T["live"]: raise ValueError("history addresses a retired transformer")
+            w.arg("transformer.uv_wavelengths", t.uv_wavelengths); w.arg("transformer.real_space_mask", t.real_space_mask)
+            if s == "vis":
+                img = Fv(st["img"]); how = st["how"]
+                mobj = masks[T["mask"]] if st.get("own_mask") else mk_mask(aa, g)
+                p = prev.get("vis")
+                reusable = p is not None and p[2] == g and len(p[1]) == len(img)
+                if how == "same_obj" and reusable and p[1] == img: im = p[0]
+                elif how == "edit" and reusable and np.asarray(p[0]).ndim == 1:
+                    im = p[0]
+                    for j, v in enumerate(fl(img)): im[j] = v                       # in-place edit of an earlier argument
+                elif how == "native": im = aa.Array2D(values=fl(img), mask=mobj).native
+                elif how == "store_native": im = aa.Array2D(values=fl(img), mask=mobj, store_native=True)
+                elif how == "sum":                                                  # derived by arithmetic: (img - part) + part
+                    part = Fv(st["part"])
+                    im = aa.Array2D(values=fl([a - b for a, b in zip(img, part)]), mask=mobj) + aa.Array2D(values=fl(part), mask=mobj)
+                elif how == "scaled":
+                    c = Fraction(1, 4096); im = aa.Array2D(values=fl([a / c for a in img]), mask=mobj).native * float(c)
+                else: im = aa.Array2D(values=fl(img), mask=mobj)
+                note(same(np.array(im.slim), np.array(fl(img))), "harness: derived image does not carry the intended values")
+                prev["vis"] = (im, img, g)
+                w.arg("image", im)
+                out = np.array(t.visibilities_from(image=im)); w.done()
+                csteps.append(f"(@HVis QOpsT {cnat(st['t'])} {cqv(img)})"); couts.append(f"(@OVis QOpsT {ccv(cvout(out))})")
+                outs.append(out.tolist())
+            elif s == "tmm":
+                P = st["P"]; M = Fm(st["M"]); how = st["how"]; a = arr2(M, P)
+                p = prev.get("tmm")
+                reusable = p is not None and p[0].shape == a.shape
+                if how == "same_obj" and reusable and p[1] == M: Ma = p[0]
+                elif how == "edit" and reusable: Ma = p[0]; Ma[...] = a
+                elif how in ("f", "view"): Ma = lay(a, how)
+                else: Ma = a
+                prev["tmm"] = (Ma, M, None)
+                w.arg("mapping_matrix", Ma)
+                out = t.transform_mapping_matrix(mapping_matrix=Ma); w.done()
+                note(out.shape == (len(T["uvv"]), P), "transform_mapping_matrix shape")
+                csteps.append(f"(@HTmm QOpsT {cnat(st['t'])} {cnat(P)} {cqm(M)})"); couts.append(f"(@OTmm QOpsT {ccm(cmout(out))})")
+                outs.append(out.tolist())
+            elif s == "image":
+                vis = pairs(st["vis"]); how = st["how"]
+                p = prev.get("image")
+                reusable = p is not None and len(p[1]) == len(vis)
+                if how == "same_obj" and reusable and p[1] == vis: V = p[0]
+                elif how == "edit" and reusable:
+                    V = p[0]
+                    for j, z in enumerate(cplx(vis)): V[j] = z
+                elif how == "sum":
+                    part = pairs(st["part"])
+                    V = aa.Visibilities(visibilities=cplx([(a - c, b - d) for (a, b), (c, d) in zip(vis, part)])) + aa.Visibilities(visibilities=cplx(part))
+                else: V = aa.Visibilities(visibilities=cplx(vis))
+                note(same(np.array(V.in_array), np.array(flm(vis), dtype=float).reshape((len(vis), 2))),
+                     "harness: derived visibilities do not carry the intended values")
+                prev["image"] = (V, vis, None)
+                w.arg("visibilities", V)
+                res = t.image_from(visibilities=V); w.done()
+                out = np.array(res.slim)
+                note(res.shape_native == t.real_space_mask.shape_native and
+                     bool(np.all(np.array(res.native)[np.array(t.real_space_mask)] == 0.0)), "image_from: masked entries / shape")
+                csteps.append(f"(@HImage QOpsT {cnat(st['t'])} {ccv(vis)})"); couts.append(f"(@OImage QOpsT (Ok {cqv(rvout(out))}))")
+                outs.append(out.tolist())
+            else: raise ValueError(s)
+    ok = ok and w.ok; why += w.why
+    return dict(base, kind="hist", coq=f"(KHist {Pi} {clist(csteps)} {clist(couts)})", out=short(outs), py_ok=ok,
+                detail=None if ok else "; ".join(why), nontrivial=len(trs) >= 2 and ncalls >= 2)
